@@ -129,7 +129,7 @@ def check_sequence(seq, blank='none'):
 
 
 def depth_for(tier):
-    return 13 if tier == "quick" else 17
+    return 12 if tier == "quick" else 16
 
 
 def legal_prefixes(n):
